@@ -254,6 +254,38 @@ Section WithWorld.
   Definition has_tag_on_fold_count (parent_vertices : list ir_vertex) (h : fold_hdr) : bool :=
     existsb (fun v => existsb (filter_tags_fold_count h) (v_filters v)) parent_vertices.
 
+  (* component_has_outputs: the component or a fold nested inside it (at any depth) produces an output *)
+  Fixpoint comp_has_outputs (c : ir_component) : bool :=
+    match c with
+    | mkComp _ _ ss outs =>
+        (match outs with [] => false | _ => true end) ||
+        (fix go (ss : list step) : bool :=
+           match ss with
+           | [] => false
+           | SEdge _ :: r => go r
+           | SFold h sub :: r => (match fo_fsout h with [] => false | _ => true end) || comp_has_outputs sub || go r
+           end) ss
+    end.
+
+  Definition is_count_tag_of (h : fold_hdr) (t : fieldref) : bool :=
+    match t with
+    | FRFold ff => N.eqb (ff_root ff) (fo_to h) && N.eqb (ff_eid ff) (fo_eid h)
+    | FRContext _ => false
+    end.
+
+  (* a fold of the parent component observes the count of fold h: it imports the tag (used inside it,
+     at any depth) or one of its own count filters compares against it *)
+  Definition fold_observes_count (h other : fold_hdr) : bool :=
+    existsb (is_count_tag_of h) (fo_imported other) ||
+    existsb (fun pf => match pf_arg pf with Some (ATag t) => is_count_tag_of h t | _ => false end) (fo_post other).
+
+  (* the eligibility test of compute_fold for the take(min) truncation *)
+  Definition min_eligible (vs : list ir_vertex) (ss : list step) (h : fold_hdr) (sub : ir_component) : bool :=
+    negb (comp_has_outputs sub)
+    && (match fo_fsout h with [] => true | _ => false end)
+    && negb (has_tag_on_fold_count vs h
+             || existsb (fun s => match s with SFold other _ => fold_observes_count h other | SEdge _ => false end) ss).
+
   (* ---- tagged values for filter right-hand sides ---- *)
   Definition fold_count_value (eid : N) (c : ctx) : res tagged :=
     match lookup_N eid (folded_contexts c) with
@@ -524,10 +556,7 @@ Section WithWorld.
     do minl0 <- get_min_fold_count_limit h;
     let minl := match minl0 with
                 | Some m =>
-                    if (match c_outputs sub with [] => true | _ => false end)
-                       && (match fo_fsout h with [] => true | _ => false end)
-                       && negb (has_tag_on_fold_count vs h)
-                    then Some m else None
+                    if min_eligible vs ss h sub then Some m else None
                 | None => None
                 end in
     do cs3 <- filter_mapM (fun c =>
